@@ -234,6 +234,28 @@ func Build(st Stage, i int, e *Env) (Op, error) {
 			e.enter(i)
 			return withCb(ctx), fMap(v, n, true)
 		}), nil
+	case "MergeMap":
+		return ro.MergeMap(func(v any) ro.Observable[any] { e.enter(i); return ro.Just(fMap(v, 0, false)) }), nil
+	case "MergeMapI":
+		return ro.MergeMapI(func(v any, n int64) ro.Observable[any] { e.enter(i); return ro.Just(fMap(v, n, true)) }), nil
+	case "MergeMapWithContext":
+		return ro.MergeMapWithContext(func(ctx context.Context, v any) ro.Observable[any] { e.enter(i); return ro.Just(fMap(v, 0, false)) }), nil
+	case "MergeMapIWithContext":
+		return ro.MergeMapIWithContext(func(ctx context.Context, v any, n int64) (context.Context, ro.Observable[any]) {
+			e.enter(i)
+			return withCb(ctx), ro.Just(fMap(v, n, true))
+		}), nil
+	case "FlatMap":
+		return ro.FlatMap(func(v any) ro.Observable[any] { e.enter(i); return ro.Just(fMap(v, 0, false)) }), nil
+	case "FlatMapI":
+		return ro.FlatMapI(func(v any, n int64) ro.Observable[any] { e.enter(i); return ro.Just(fMap(v, n, true)) }), nil
+	case "FlatMapWithContext":
+		return ro.FlatMapWithContext(func(ctx context.Context, v any) ro.Observable[any] { e.enter(i); return ro.Just(fMap(v, 0, false)) }), nil
+	case "FlatMapIWithContext":
+		return ro.FlatMapIWithContext(func(ctx context.Context, v any, n int64) ro.Observable[any] {
+			e.enter(i)
+			return ro.Just(fMap(v, n, true))
+		}), nil
 	case "MapTo":
 		return ro.MapTo[any, any](st.P), nil
 	case "MapErr":
